@@ -27,6 +27,19 @@ OPS = {"C03": OPS_C03, "C04": OPS_C04, "C05": OPS_C05, "C16": OPS_C16}
 SMALLMAP = {2 ** 31: 1000, -(2 ** 31): -1000, 2 ** 62: 4096, -(2 ** 62): -4096, 2 ** 40: 5000}
 
 
+def ascending_widen(line):
+    """x widen y  ->  y := x join y ; x widen y.  lookahead_widening_domain implements the
+    operator of Gopan & Reps (CAV'06), which is only defined on ascending arguments."""
+    ops = line.split(" ; ")
+    out = [ops[0]]
+    for o in ops[1:]:
+        t = o.split()
+        if t[0] in ("widen", "widenthr") and t[2] != t[3]:
+            out.append("join %s %s %s" % (t[3], t[2], t[3]))
+        out.append(o)
+    return " ; ".join(out)
+
+
 def sanitize(line, big=False, drop=()):
     """restrict a history of domhist.gen_history to the searched fragment"""
     ops = line.split(" ; ")
@@ -39,6 +52,12 @@ def sanitize(line, big=False, drop=()):
             t[2] = {"udiv": "sdiv", "urem": "srem"}.get(t[2], t[2])
             if t[2] in drop:
                 continue
+            if t[2] in ("sdiv", "srem"):
+                # division/remainder by non-zero operands only
+                if t[5] == "k" and int(t[6]) == 0:
+                    t[6] = "2"
+                elif t[5] == "v":
+                    out.append("assume %s 1 C ne E 1 1 %s 0" % (t[1], t[6]))
         if t[0] == "expand":
             # precondition of expand in the graph domains: the new variable is unbound
             out.append("forget %s 1 %s" % (t[1], t[3]))
@@ -77,7 +96,7 @@ def with_normalize(line, rng):
     return " ; ".join(out), keep
 
 
-def histories(seed, prop, n, big=False, drop=(), maxvars=5, maxops=30):
+def histories(seed, prop, n, big=False, drop=(), maxvars=5, maxops=30, asc_widen=False):
     rng = random.Random(seed)
     opts = {"ops": OPS[prop], "maxvars": maxvars, "maxops": maxops, "minops": 4}
     out = []
@@ -85,6 +104,8 @@ def histories(seed, prop, n, big=False, drop=(), maxvars=5, maxops=30):
         l = sanitize(domhist.gen_history(rng, opts), big, drop)
         if prop == "C04":
             l = with_csts_after_leq(l)
+        if asc_widen:
+            l = ascending_widen(l)
         out.append(l)
     return out
 
@@ -163,20 +184,27 @@ def chain_bound(nv, nthr, k=1):
     return (2 * d * d + 2 * d) * (nthr + 1) + 8
 
 
-def rel_chain_oracle(line, ans, rng=None, k=1, sound=True):
-    """soundness of every step (domhist.oracle) + stabilisation.  A step is stationary if
-    the new value is included in the old one (q_leq 0 2) or prints exactly as the old
-    one (intervals and exported constraints)."""
+def rel_chain_oracle(line, ans, rng=None, k=1, sound=True, complete_leq=False):
+    """soundness of every step (domhist.oracle) + stabilisation.  A step is
+    widen ; q_leq 0 2 ; q_csts 0 ; q_leq 1 0 (nothing in between).  It is stationary if the
+    new value is included in the old one according to the domain's own inclusion test
+    (q_leq 0 2, what the fixpoint engine uses to stop).  Steps whose printed value
+    (intervals and exported constraints) did not change but whose inclusion test still
+    answers false are counted separately: an engine would not stop on them either.
+    `q_leq 1 0` = false (second argument not below the result) is a defect only for a
+    domain whose inclusion test is complete; soundness of the result is checked on the
+    stores in any case."""
+    if ans.startswith("ABORT") or ans == "MISSING" or ans.startswith("HARNESS-ERROR"):
+        return None
+    ans = drop_ghost_csts(ans)
     if sound:
         w = domhist.oracle(line, ans, rng)
         if w:
             return w
-    if ans in ("ABORT", "MISSING") or ans.startswith("HARNESS-ERROR"):
-        return None
     ops = line.split(" ; ")
     nv = int(ops[0].split()[2])
     answers = ans.split(" ; ")
-    ns = 0; steps = 0
+    ns = 0; ns_print = 0; steps = 0
     prev = None; cur = None
     tail = 0
     for i, o in enumerate(ops[1:]):
@@ -185,24 +213,28 @@ def rel_chain_oracle(line, ans, rng=None, k=1, sound=True):
         a = answers[i]
         if o.startswith("widen"):
             cur = [a]
-            nthr = int(o.split()[4]) if o.startswith("widenthr") else 0
-        elif o == "q_leq 0 2" and cur is not None:
+        elif not o.startswith("q_"):
+            cur = None
+        elif o == "q_leq 0 2" and cur is not None and len(cur) == 1:
             cur.append(a)
-        elif o == "q_csts 0" and cur is not None:
+        elif o == "q_csts 0" and cur is not None and len(cur) == 2:
             cur.append(",".join(sorted(a[1:-1].split(","))))
-        elif o == "q_leq 1 0" and cur is not None:
+        elif o == "q_leq 1 0" and cur is not None and len(cur) == 3:
             steps += 1
-            if a == "false":
+            if a == "false" and complete_leq:
                 return "step %d (q_leq 1 0) of: %s: the second argument of a widening is not included in its result" % (i + 1, line)
-            stationary = cur[1] == "true" or (prev is not None and (cur[0], cur[2]) == (prev[0], prev[2]))
-            if not stationary:
+            if cur[1] != "true":
                 ns += 1; tail = steps
+                if not (prev is not None and (cur[0], cur[2]) == (prev[0], prev[2])):
+                    ns_print += 1
             prev = cur; cur = None
     nthr = max([int(o.split()[4]) for o in ops[1:] if o.startswith("widenthr")] + [0])
     bound = chain_bound(nv + 2, nthr, k)
     if ns > bound:
-        return ("step %d (widen) of: %s: %d non-stationary widening steps out of %d (bound %d for %d variables), the last at step %d: "
-                "the chain does not stabilise" % (len(ops) - 1, line, ns, steps, bound, nv, tail))
+        return ("step %d (widen) of: %s: %d non-stationary widening steps out of %d (bound %d for %d variables), the last at step %d; "
+                "in %d of them the printed value changed: the chain does not stabilise%s"
+                % (len(ops) - 1, line, ns, steps, bound, nv, tail, ns_print,
+                   "" if ns_print > bound else " according to the domain's own inclusion test (x widen y <= x keeps answering false on a value that no longer changes)"))
     return None
 
 
@@ -211,11 +243,12 @@ def rel_chain_oracle(line, ans, rng=None, k=1, sound=True):
 def oracle_ext(line, ans, rng=None, checks=("at", "leq", "entails", "csts", "bot")):
     """domhist.oracle, plus: if `q_leq s t` answered true and is followed by `q_csts t`,
     every sampled store of s must satisfy the constraints exported by t."""
+    if ans.startswith("ABORT") or ans == "MISSING" or ans.startswith("HARNESS-ERROR"):
+        return None
+    ans = drop_ghost_csts(ans)
     w = domhist.oracle(line, ans, rng, checks)
     if w or "leq" not in checks:
         return w
-    if ans in ("ABORT", "MISSING") or ans.startswith("HARNESS-ERROR"):
-        return None
     ops = line.split(" ; ")
     answers = ans.split(" ; ")
     if len(answers) != len(ops) - 1:
@@ -240,6 +273,19 @@ def oracle_ext(line, ans, rng=None, checks=("at", "leq", "entails", "csts", "bot
                     "exported by the right operand (next step)" % (i - 1, ops[i - 1], line, m.group(4), m.group(3)))
         return w
     return None
+
+
+def drop_ghost_csts(ans):
+    """exported constraints that mention a variable that is not one of the history (the
+    ghost variables of fixed_tvpi print as v?) cannot be evaluated on a store: dropped"""
+    if "v?" not in ans:
+        return ans
+    out = []
+    for a in ans.split(" ; "):
+        if a.startswith("{") and "v?" in a:
+            a = "{" + ",".join(c for c in a[1:-1].split(",") if "v?" not in c) + "}"
+        out.append(a)
+    return " ; ".join(out)
 
 
 def kind_of(w):
